@@ -22,10 +22,11 @@ VARIABLES mode, t, u, ign, pat, acc, todo, go
 vars == <<mode, t, u, ign, pat, acc, todo, go>>
 args == <<mode, t, u, ign, pat, acc, todo>>
 
-KeyOrder == <<"a", "b", "c">>
-RevOrder == <<"c", "b", "a">>
-Key2 == {"a", "b"}
-Key3 == {"a", "b", "c"}
+KeyOrder == <<"a", "ab", "c">>
+RevOrder == <<"c", "ab", "a">>
+\* "a" is a string prefix of "ab": keys that are prefixes of sibling keys are ordinary, independent keys
+Key2 == {"a", "ab"}
+Key3 == {"a", "ab", "c"}
 
 L1   == VLst(<<VInt(1)>>)
 Leaf4 == {None, VInt(1), VStr("s"), L1}
@@ -38,9 +39,9 @@ MLeaf == IF LeafSet = "small" THEN Leaf2 ELSE IF LeafSet = "std" THEN Leaf3 ELSE
 \* subtrees of depth <= 2 (leaf, flat branch, nested branch, mixed)
 Pick == {VInt(1), None,
          Branch([k \in {"a"} |-> VInt(1)]),
-         Branch([k \in {"a", "b"} |-> IF k = "a" THEN None ELSE VStr("s")]),
-         Branch([k \in {"b"} |-> Branch([j \in {"a"} |-> VInt(1)])]),
-         Branch([k \in {"a", "b"} |-> IF k = "a" THEN Branch([j \in {"a", "b"} |-> IF j = "a" THEN L1 ELSE None]) ELSE VInt(1)])}
+         Branch([k \in {"a", "ab"} |-> IF k = "a" THEN None ELSE VStr("s")]),
+         Branch([k \in {"ab"} |-> Branch([j \in {"a"} |-> VInt(1)])]),
+         Branch([k \in {"a", "ab"} |-> IF k = "a" THEN Branch([j \in {"a", "ab"} |-> IF j = "a" THEN L1 ELSE None]) ELSE VInt(1)])}
 DeepU == {Branch(f) : f \in UNION {[S -> Pick] : S \in (SUBSET Key2) \ {{}}}}
 Wide3U == RootU(Key3, Leaf2, 1) \cup {Branch(f) : f \in [Key3 -> {VInt(1), Branch([k \in {"c"} |-> None]), Branch([k \in {"a", "c"} |-> VStr("s")])}]}
 SingleU == RootU(Key2, Leaf4, 2) \cup Wide3U \cup (IF RebuildWide THEN RootU(Key3, {VInt(1)}, 2) ELSE {})
@@ -50,7 +51,7 @@ IgnU   == {{}, {None}, {None, VInt(1)}}
 \* patterns: every sequence of 1..4 parts over {literal a, literal b, wildcard} with at least
 \* one wildcard; the wildcards are named x, y, z, w from left to right
 VarNames == <<"x", "y", "z", "w">>
-Shape == UNION {[1..n -> {"a", "b", "%"}] : n \in 1..4}
+Shape == UNION {[1..n -> {"a", "ab", "%"}] : n \in 1..4}
 NVarsBefore(s, i) == Cardinality({j \in 1..(i - 1) : s[j] = "%"})
 PatOf(s) == [i \in 1..Len(s) |-> IF s[i] = "%" THEN <<"var", VarNames[NVarsBefore(s, i) + 1]>> ELSE <<"lit", s[i]>>]
 PatU == {PatOf(s) : s \in {q \in Shape : \E i \in 1..Len(q) : q[i] = "%"}}
